@@ -74,6 +74,33 @@ Proof.
   intros Hq. pose proof (compressor_isolated cs r) as H. unfold pending in H. rewrite Hq in H. simpl in H.
   rewrite app_nil_r in H. exact H.
 Qed.
+
+(* ... and the queues do drain: after as many receives by its thread as there are requests queued for it, a file holds
+   exactly what its client sent - whatever else happened before (liveness of the isolation clause) *)
+Lemma recv_queue s k : queue (cstep T s (CRecv k)) k = tl (queue s k).
+Proof. simpl. destruct (queue s k) as [|[i d] rest] eqn:E; simpl; [rewrite E; reflexivity|rewrite Nat.eqb_refl; reflexivity]. Qed.
+
+Lemma recvs_queue k n : forall s, queue (fold_left (cstep T) (repeat (CRecv k) n) s) k = skipn n (queue s k).
+Proof.
+  induction n as [|n IH]; intros s; [reflexivity|]. cbn [repeat fold_left].
+  rewrite IH, recv_queue. destruct (queue s k); simpl; [rewrite skipn_nil; reflexivity|reflexivity].
+Qed.
+
+Lemma sent_by_recvs r k n : forall cs, sent_by r (cs ++ repeat (CRecv k) n) = sent_by r cs.
+Proof.
+  induction cs as [|c cs IH]; simpl.
+  - induction n as [|n IHn]; simpl; auto.
+  - destruct c; rewrite IH; reflexivity.
+Qed.
+
+Theorem compressor_drains cs r :
+  let k := thread_of T r in
+  let cs' := cs ++ repeat (CRecv k) (length (queue (crun T cs) k)) in
+  file (crun T cs') k (index_of T r) = sent_by r cs.
+Proof.
+  intros k cs'. rewrite <- (sent_by_recvs r k (length (queue (crun T cs) k)) cs). apply compressor_drained.
+  unfold cs', crun. rewrite fold_left_app. fold (crun T cs). rewrite recvs_queue. apply skipn_all.
+Qed.
 End P.
 
 (* ---------- the shutdown protocol never makes a send fail (C06: no internal error) ---------- *)
